@@ -140,6 +140,13 @@ VMDK_UNSAFE_LINES = (
     ('extent_path', 'RW 2048 FLAT "/etc/hosts" 0'),
     ('extent_path', 'RDONLY 2048 SPARSE "../other/disk.vmdk"'),
     ('extent_path', 'rw 1 vmfs "a/b.vmdk"'),
+    # an '=' inside a line that is no key=value line (the part before the
+    # '=' has blanks): the line is what it is
+    ('extent_path', 'RW 20480 SPARSE "/var/lib/images/base=golden.vmdk"'),
+    ('extent_path', 'RW 1 FLAT "/etc/passwd=x" 0'),
+    ('unknown_line', 'two words=val'),
+    ('unknown_line', 'foo bar = baz'),
+    ('unknown_line', 'include other=thing.vmdk'),
 )
 # lines carrying control characters other than '\n' that some line
 # splitters treat as line ends: still ONE descriptor line
@@ -441,7 +448,9 @@ def polyglots(draw):
     sigs = ([sig0] if sig0 else []) + sorted(others)
     o = dict(length=length,
              background=draw(st.sampled_from(['zero', 'random', 'text'])),
-             sigs=sigs, fill=draw(fills), fat=draw(st.integers(0, 5)) == 0)
+             sigs=sigs, fill=draw(fills),
+             fat=draw(st.sampled_from([False, False, False, False, True,
+                                       'numfats', 'media'])))
     if sigs and draw(st.integers(0, 3)) == 0:
         # near miss: one byte of one signature is wrong
         o['corrupt'] = {draw(st.sampled_from(sigs)): draw(st.integers(0, 7))}
